@@ -38,6 +38,23 @@ Theorem C15b_len_nested : forall e parts rest h, len (concat parts) < 256 ->
     /\ parse_len_u8 inner = Some (concat parts, []).
 Proof. exact len_nested. Qed.
 
+Theorem C15b_int_exact : forall e v h,
+  call e "std::u8" [VU64 v] [] h = Some (Ok (VStr [v mod 256], h))
+  /\ call e "std::be16" [VU64 v] [] h = Some (Ok (VStr (be16 (v mod 65536)), h))
+  /\ call e "std::be32" [VU64 v] [] h = Some (Ok (VStr (be32 (v mod 4294967296)), h))
+  /\ call e "std::le16" [VU64 v] [] h = Some (Ok (VStr (le16 (v mod 65536)), h))
+  /\ call e "std::le32" [VU64 v] [] h = Some (Ok (VStr (le32 (v mod 4294967296)), h)).
+Proof. exact int_exact. Qed.
+
+Theorem C15b_int_iff : forall e v rest h,
+  (forall out, call e "std::u8" [VU64 v] [] h = Some (Ok (VStr out, h)) ->
+               (parse_u8 (out ++ rest) = Some (v, rest) <-> v < 256))
+  /\ (forall out, call e "std::be16" [VU64 v] [] h = Some (Ok (VStr out, h)) ->
+                  (parse_be16 (out ++ rest) = Some (v, rest) <-> v < 65536))
+  /\ (forall out, call e "std::be32" [VU64 v] [] h = Some (Ok (VStr out, h)) ->
+                  (parse_be32 (out ++ rest) = Some (v, rest) <-> v < 4294967296)).
+Proof. exact int_iff. Qed.
+
 (** the hypotheses are met, on both sides of the boundary: 255 bytes parse back, 256 bytes declare 0 *)
 Example C15b_nonvacuous :
   let e := {| env_files := [] |} in
